@@ -1,13 +1,13 @@
 import logging
 from io import BytesIO
-from typing import TYPE_CHECKING, BinaryIO, Optional, Union
+from typing import TYPE_CHECKING, Any, BinaryIO, Optional, Union
 
 from pdfminer import settings
 from pdfminer.casting import safe_int
 from pdfminer.pdfexceptions import PDFException
 from pdfminer.pdftypes import PDFObjRef, PDFStream, dict_value, int_value
 from pdfminer.psexceptions import PSEOF
-from pdfminer.psparser import KWD, PSKeyword, PSStackParser
+from pdfminer.psparser import KWD, PSKeyword, PSStackEntry, PSStackParser
 
 if TYPE_CHECKING:
     from pdfminer.pdfdocument import PDFDocument
@@ -141,7 +141,33 @@ class PDFStreamParser(PDFParser):
         PDFParser.__init__(self, BytesIO(data))
 
     def flush(self) -> None:
-        self.add_results(*self.popall())
+        # Every complete top-level object is handed out at once, except that
+        # up to two trailing integers are held back: they may turn out to be
+        # the object number and generation of an indirect reference `n g R`
+        # that is a top-level object of its own.
+        keep = 0
+        while (
+            keep < 2
+            and keep < len(self.curstack)
+            and type(self.curstack[-1 - keep][1]) is int
+        ):
+            keep += 1
+        if keep:
+            held = self.pop(keep)
+            self.add_results(*self.popall())
+            self.curstack.extend(held)
+        else:
+            self.add_results(*self.popall())
+
+    def nextobject(self) -> PSStackEntry[Any]:
+        try:
+            return super().nextobject()
+        except PSEOF:
+            # integers held back by flush() were objects after all
+            if self.context or not self.curstack:
+                raise
+            self.add_results(*self.popall())
+            return self.results.pop(0)
 
     KEYWORD_OBJ = KWD(b"obj")
 
